@@ -344,6 +344,113 @@ def generate(ctx):
     ctx.gen = qasm_tr.generate()
 
 
+# ---- the other two observation points: save_qasm(qc, path) and print_qasm(qc) ---------------------------------------------
+def _tmpdir():
+    import tempfile
+    return tempfile.mkdtemp(prefix="c10-", dir="/tmp")
+
+
+def check_history(hist, rng=None, model_texts=None):
+    """hist: list of circuits saved one after the other to the SAME path.  After every save the file must hold exactly the
+    text of the last circuit (= circuit_to_qasm_str = the model's text), print_qasm must print the same text, and the file
+    must re-import with read_qasm (file mode) to the circuit's action.  -> None | failure dict"""
+    import contextlib
+    import io
+    import shutil
+    from qutip_qip.qasm import circuit_to_qasm_str, save_qasm, print_qasm, read_qasm
+    d = _tmpdir()
+    path = os.path.join(d, "out.qasm")
+    inp = dict(history=hist)
+
+    def fail(obs, exp, what):
+        return dict(input=inp, observed=obs, expected=exp, what=what)
+    try:
+        before = None
+        for i, c in enumerate(hist):
+            try:
+                qc = build_circuit(c)
+            except Exception:
+                return None
+            try:
+                with warnings.catch_warnings():
+                    warnings.simplefilter("ignore")
+                    want = circuit_to_qasm_str(qc)
+            except Exception:
+                want = None
+            if model_texts is not None and model_texts[i] is not None and want is not None and model_texts[i] != want:
+                return fail(want[-200:], model_texts[i][-200:], "circuit_to_qasm_str differs from the model's text")
+            # save_qasm
+            try:
+                save_qasm(qc, path)
+                saved = True
+            except Exception as e:
+                saved, serr = False, f"{type(e).__name__}: {e}"
+            now = open(path).read() if os.path.exists(path) else None
+            if want is None:
+                if saved:
+                    return fail("saved", "refused like circuit_to_qasm_str", f"save #{i + 1}: save_qasm exports a circuit that circuit_to_qasm_str refuses")
+                if now != before:
+                    return fail(_tail(now), _tail(before), f"save #{i + 1}: a refused save_qasm changed the file")
+                continue
+            if not saved:
+                return fail("refused: " + serr, "file written", f"save #{i + 1}: save_qasm refuses a circuit that circuit_to_qasm_str exports")
+            if now != want:
+                try:
+                    OQ.elaborate(OQ.parse(MEAS_LINE.sub(r"\1;", now)))
+                    strict = "accepted by the strict reader"
+                except OQ.QasmError as e:
+                    strict = f"not valid OpenQASM 2.0: {e}"
+                return fail(dict(file_tail=_tail(now), file_lines=len(now.splitlines()), strict_reader=strict),
+                            dict(text_tail=_tail(want), lines=len(want.splitlines())),
+                            f"save #{i + 1} to the same path: the file saved by save_qasm does not hold exactly the circuit's text")
+            before = now
+            # print_qasm
+            buf = io.StringIO()
+            try:
+                with contextlib.redirect_stdout(buf):
+                    print_qasm(qc)
+            except Exception as e:
+                return fail(f"{type(e).__name__}: {e}", "printed text", "print_qasm refuses a circuit that circuit_to_qasm_str exports")
+            if buf.getvalue() != want:
+                return fail(_tail(buf.getvalue()), _tail(want), "print_qasm prints a text different from circuit_to_qasm_str")
+            # the file re-imports (file mode of read_qasm) to the circuit's action
+            try:
+                with warnings.catch_warnings():
+                    warnings.simplefilter("ignore")
+                    rq = read_qasm(path)
+            except Exception as e:
+                return fail(f"{type(e).__name__}: {e}", "re-import", f"save #{i + 1}: read_qasm cannot read the saved file")
+            r = np.random.RandomState(rng.randrange(2 ** 31) if rng is not None else 99)
+            psi = r.normal(size=2 ** qc.N) + 1j * r.normal(size=2 ** qc.N)
+            psi /= np.linalg.norm(psi)
+            try:
+                bad = _diff(C4.impl_branches(qc, psi), C4.impl_branches(rq, psi)) if rq.N == qc.N else "number of qubits"
+            except Exception as e:
+                bad = f"{type(e).__name__}: {e}"
+            if bad:
+                return fail(bad, "same action up to a global phase", f"save #{i + 1}: the saved file re-imports to a different circuit: {bad}")
+        return None
+    finally:
+        shutil.rmtree(d, ignore_errors=True)
+
+
+def _tail(t):
+    return None if t is None else t[-240:]
+
+
+def gen_history(rng, pool):
+    """2-3 circuits for one path: different ones, equal ones, a longer one followed by a shorter one"""
+    k = rng.choice([2, 2, 3])
+    r = rng.random()
+    if r < 0.25:
+        c = rng.choice(pool)
+        return [c] * k
+    h = [rng.choice(pool) for _ in range(k)]
+    if r < 0.6:
+        h.sort(key=lambda c: -len(c["ops"]))
+    return h
+
+
 def check_circuit(c, rng=None):
     qc, text, err = real_export(c)
     if qc is None:
@@ -356,6 +463,8 @@ def check_circuit(c, rng=None):
 
 def replay(ctx, rec):
     inp = rec.get("input", rec)
+    if "history" in inp:
+        return check_history(inp["history"]) is not None
     return check_circuit(inp["circuit"]) is not None
 
 
@@ -398,6 +507,7 @@ def correspond(ctx):
     cases = _stream(ctx, ctx.n(220, 2500), ctx.n(60, 500))
     circs = [c for _, c in cases]
     models = run_model(ctx.tier, circs)
+    model_text_of = {json.dumps(c, sort_keys=True): (None if m is None else m[0]) for c, m in zip(circs, models)}
     for (kind, c), m in zip(cases, models):
         key = json.dumps(c, sort_keys=True)
         nontriv = any(("meas" in o) or o["arg"]["vals"] or o["gate"] in ("CRX", "CRY", "SQRTNOT", "CS", "CT", "SWAP") for o in c["ops"])
@@ -429,6 +539,16 @@ def correspond(ctx):
         r = oracle(c, qc, text, err, ctx.rng)
         if r is not None:
             corr.oracle_fail(inp, r[0], r[1], r[2])
+    # save_qasm / print_qasm: single saves of every third circuit, then histories of 2-3 saves to one path
+    pool = [c for k, c in cases if k in ("random", "sweep", "corpus")]
+    hists = [[c] for c in circs[::3]] + [gen_history(ctx.rng, pool) for _ in range(ctx.n(60, 500))]
+    hists += [r.get("input", r)["history"] for r in corpus() if "history" in r.get("input", r)]
+    for h in hists:
+        corr.count("history:" + json.dumps(h, sort_keys=True), nontrivial=len(h) > 1, sample=None)
+        corr.tally("save/print history of length %d" % len(h))
+        f = check_history(h, ctx.rng, [model_text_of.get(json.dumps(c, sort_keys=True)) for c in h])
+        if f is not None:
+            corr.oracle_fail(f["input"], f["observed"], f["expected"], f["what"])
     corr.extra["translated"] = {k: (len(v) if hasattr(v, "__len__") else v) for k, v in getattr(ctx, "gen", {}).items()}
     return corr
 
@@ -436,10 +556,17 @@ def correspond(ctx):
 def search(ctx, broken):
     out = []
     for rec in corpus():
-        f = check_circuit(rec.get("input", rec)["circuit"])
+        inp = rec.get("input", rec)
+        f = check_history(inp["history"]) if "history" in inp else check_circuit(inp["circuit"])
         if f:
             out.append(f)
     rng = ctx.rng
+    pool = [gen_circuit(rng) for _ in range(40)]
+    for _ in range(60):
+        f = check_history(gen_history(rng, pool), rng)
+        if f:
+            out.append(f)
+            break
     for kind, c in _stream(ctx, 600, 80):
         if len(out) >= 8:
             break
